@@ -452,7 +452,7 @@ pub fn run(args: &Args) {
         let (stream, rest) = case.split_once(' ').unwrap_or(("forge", case));
         let (stream, rest) = if stream == "forge" || stream == "evict" { (stream, rest) } else { ("forge", case.as_str()) };
         let ops = parse_script(rest);
-        let mut run = Run::new("c05", "/tmp/vh-replay-c05");
+        let mut run = Run::new("c05", &crate::scratch("c05-replay"));
         let (res, _) = run_script(&ops, false);
         println!("impl: {}", results_text(&res));
         emit(&mut run, stream, &Case { ops, kind: "replay" });
